@@ -7,7 +7,7 @@ namespace TbbVerif.C13
 
 /-! ### `get` / `set` -/
 
-theorem get_set (d : List Nat) (i v j : Nat) :
+theorem get_set (d : List Elem) (i : Nat) (v : Elem) (j : Nat) :
     get (d.set i v) j = if j = i ∧ i < d.length then v else get d j := by
   unfold get
   rw [List.getElem?_set]
@@ -17,33 +17,33 @@ theorem get_set (d : List Nat) (i v j : Nat) :
   · have : ¬ j = i := fun e => h e.symm
     simp [h, this]
 
-theorem get_set_eq (d : List Nat) (i v : Nat) (h : i < d.length) : get (d.set i v) i = v := by
+theorem get_set_eq (d : List Elem) (i : Nat) (v : Elem) (h : i < d.length) : get (d.set i v) i = v := by
   rw [get_set]; simp [h]
 
-theorem get_set_ne (d : List Nat) (i v j : Nat) (h : j ≠ i) : get (d.set i v) j = get d j := by
+theorem get_set_ne (d : List Elem) (i : Nat) (v : Elem) (j : Nat) (h : j ≠ i) : get (d.set i v) j = get d j := by
   rw [get_set]; simp [h]
 
-theorem get_set' (d : List Nat) (i v j : Nat) (h : i < d.length) :
+theorem get_set' (d : List Elem) (i : Nat) (v : Elem) (j : Nat) (h : i < d.length) :
     get (d.set i v) j = if j = i then v else get d j := by
   rw [get_set]; simp [h]
 
-theorem get_of_lt (d : List Nat) (i : Nat) (h : i < d.length) : get d i = d[i] := by
+theorem get_of_lt (d : List Elem) (i : Nat) (h : i < d.length) : get d i = d[i] := by
   unfold get; simp [h]
 
-theorem get_mem (d : List Nat) (i : Nat) (h : i < d.length) : get d i ∈ d := by
+theorem get_mem (d : List Elem) (i : Nat) (h : i < d.length) : get d i ∈ d := by
   rw [get_of_lt d i h]; exact List.getElem_mem h
 
-theorem get_dropLast (d : List Nat) (i : Nat) (h : i < d.length - 1) : get d.dropLast i = get d i := by
+theorem get_dropLast (d : List Elem) (i : Nat) (h : i < d.length - 1) : get d.dropLast i = get d i := by
   unfold get; rw [List.getElem?_dropLast]; simp [h]
 
-theorem get_append_left (d e : List Nat) (i : Nat) (h : i < d.length) : get (d ++ e) i = get d i := by
+theorem get_append_left (d e : List Elem) (i : Nat) (h : i < d.length) : get (d ++ e) i = get d i := by
   unfold get; rw [List.getElem?_append]; simp [h]
 
-theorem get_take (d : List Nat) (m i : Nat) (h : i < m) : get (d.take m) i = get d i := by
+theorem get_take (d : List Elem) (m i : Nat) (h : i < m) : get (d.take m) i = get d i := by
   unfold get; rw [List.getElem?_take]; simp [h]
 
 /-- counting through a `set` -/
-theorem count_set' (d : List Nat) (i v a : Nat) (h : i < d.length) :
+theorem count_set' (d : List Elem) (i : Nat) (v a : Elem) (h : i < d.length) :
     (d.set i v).count a + (if get d i = a then 1 else 0) = d.count a + (if v = a then 1 else 0) := by
   rw [List.count_set h, get_of_lt d i h]
   have hpos : (d[i] == a) = true → 0 < d.count a := by
@@ -57,7 +57,7 @@ theorem count_set' (d : List Nat) (i v a : Nat) (h : i < d.length) :
 
 /-- swapping through the hole: moving `d[j]` into position `i` and then writing `v` at `j`
 is a permutation of writing `v` at `i`. -/
-theorem set_set_perm (d : List Nat) (i j v : Nat) (hi : i < d.length) (hj : j < d.length) (hij : i ≠ j) :
+theorem set_set_perm (d : List Elem) (i j : Nat) (v : Elem) (hi : i < d.length) (hj : j < d.length) (hij : i ≠ j) :
     ((d.set i (get d j)).set j v).Perm (d.set i v) := by
   rw [List.perm_iff_count]
   intro a
@@ -69,7 +69,7 @@ theorem set_set_perm (d : List Nat) (i j v : Nat) (hi : i < d.length) (hj : j < 
   simp only [this, if_false] at h1
   omega
 
-theorem set_get_self (d : List Nat) (i : Nat) : d.set i (get d i) = d := by
+theorem set_get_self (d : List Elem) (i : Nat) : d.set i (get d i) = d := by
   apply List.ext_getElem?
   intro j
   rw [List.getElem?_set]
@@ -83,9 +83,9 @@ theorem set_get_self (d : List Nat) (i : Nat) : d.set i (get d i) = d := by
 /-! ### heap order -/
 
 /-- `d[0, m)` is a binary max-heap w.r.t. `<`: no element is greater than its parent. -/
-def IsHeap (d : List Nat) (m : Nat) : Prop := ∀ i, 0 < i → i < m → get d i ≤ get d ((i - 1) / 2)
+def IsHeap (d : List Elem) (m : Nat) : Prop := ∀ i, 0 < i → i < m → (get d i).key ≤ (get d ((i - 1) / 2)).key
 
-theorem IsHeap.top_max {d : List Nat} {m : Nat} (h : IsHeap d m) : ∀ i, i < m → get d i ≤ get d 0 := by
+theorem IsHeap.top_max {d : List Elem} {m : Nat} (h : IsHeap d m) : ∀ i, i < m → (get d i).key ≤ (get d 0).key := by
   intro i
   induction i using Nat.strongRecOn with
   | _ i ih =>
@@ -96,18 +96,18 @@ theorem IsHeap.top_max {d : List Nat} {m : Nat} (h : IsHeap d m) : ∀ i, i < m 
       have h2 := ih ((i - 1) / 2) (by omega) (by omega)
       omega
 
-theorem IsHeap.mono {d : List Nat} {m m' : Nat} (h : IsHeap d m) (hm : m' ≤ m) : IsHeap d m' :=
+theorem IsHeap.mono {d : List Elem} {m m' : Nat} (h : IsHeap d m) (hm : m' ≤ m) : IsHeap d m' :=
   fun i h0 h1 => h i h0 (by omega)
 
-theorem IsHeap.congr {d d' : List Nat} {m : Nat} (h : IsHeap d m) (e : ∀ i, i < m → get d' i = get d i) :
+theorem IsHeap.congr {d d' : List Elem} {m : Nat} (h : IsHeap d m) (e : ∀ i, i < m → get d' i = get d i) :
     IsHeap d' m := by
   intro i h0 h1
   rw [e i h1, e ((i - 1) / 2) (by omega)]
   exact h i h0 h1
 
 /-- every element of the heap part is `≤` the top -/
-theorem IsHeap.mem_take_le {d : List Nat} {m : Nat} (h : IsHeap d m) (hm : m ≤ d.length) :
-    ∀ y ∈ d.take m, y ≤ get d 0 := by
+theorem IsHeap.mem_take_le {d : List Elem} {m : Nat} (h : IsHeap d m) (hm : m ≤ d.length) :
+    ∀ y ∈ d.take m, y.key ≤ (get d 0).key := by
   intro y hy
   obtain ⟨i, hi, rfl⟩ := List.getElem_of_mem hy
   have hi' : i < m := by simpa [List.length_take, Nat.min_eq_left hm] using hi
@@ -117,10 +117,10 @@ theorem IsHeap.mem_take_le {d : List Nat} {m : Nat} (h : IsHeap d m) (hm : m ≤
 
 /-! ### `siftUp` / `heapify` -/
 
-theorem length_siftUp (d : List Nat) (x cur : Nat) : (siftUp d x cur).length = d.length := by
+theorem length_siftUp (d : List Elem) (x : Elem) (cur : Nat) : (siftUp d x cur).length = d.length := by
   fun_induction siftUp d x cur <;> simp_all
 
-theorem siftUp_perm (d : List Nat) (x cur : Nat) (hc : cur < d.length) :
+theorem siftUp_perm (d : List Elem) (x : Elem) (cur : Nat) (hc : cur < d.length) :
     (siftUp d x cur).Perm (d.set cur x) := by
   fun_induction siftUp d x cur with
   | case1 d => exact List.Perm.refl _
@@ -132,9 +132,9 @@ theorem siftUp_perm (d : List Nat) (x cur : Nat) (hc : cur < d.length) :
 
 /-- the sift-up loop with the hole at `cur`: `d` is a heap on `[0, m]` except possibly for the edge into
 `m` when the hole is still at `m`; the stale value in the hole is `≤ x`. -/
-theorem siftUp_heap (x m : Nat) (d : List Nat) (cur : Nat) (hcm : cur ≤ m) (hm : m < d.length)
-    (hedge : ∀ i, 0 < i → i ≤ m → (i = m → cur ≠ m) → get d i ≤ get d ((i - 1) / 2))
-    (hst : get d cur ≤ x) : IsHeap (siftUp d x cur) (m + 1) := by
+theorem siftUp_heap (x : Elem) (m : Nat) (d : List Elem) (cur : Nat) (hcm : cur ≤ m) (hm : m < d.length)
+    (hedge : ∀ i, 0 < i → i ≤ m → (i = m → cur ≠ m) → (get d i).key ≤ (get d ((i - 1) / 2)).key)
+    (hst : (get d cur).key ≤ x.key) : IsHeap (siftUp d x cur) (m + 1) := by
   fun_induction siftUp d x cur with
   | case1 d =>
     intro i h0 h1
@@ -179,12 +179,12 @@ theorem siftUp_heap (x m : Nat) (d : List Nat) (cur : Nat) (hcm : cur ≤ m) (hm
         rw [hpc] at e1; omega
       · exact hedge i hi0 (by omega) (by omega)
 
-theorem length_heapifyN (n : Nat) (d : List Nat) (m : Nat) : (heapifyN n d m).length = d.length := by
+theorem length_heapifyN (n : Nat) (d : List Elem) (m : Nat) : (heapifyN n d m).length = d.length := by
   induction n generalizing d m with
   | zero => rfl
   | succ n ih => simp [heapifyN, ih, length_siftUp]
 
-theorem heapifyN_perm (n : Nat) (d : List Nat) (m : Nat) (h : m + n ≤ d.length) : (heapifyN n d m).Perm d := by
+theorem heapifyN_perm (n : Nat) (d : List Elem) (m : Nat) (h : m + n ≤ d.length) : (heapifyN n d m).Perm d := by
   induction n generalizing d m with
   | zero => exact List.Perm.refl _
   | succ n ih =>
@@ -193,7 +193,7 @@ theorem heapifyN_perm (n : Nat) (d : List Nat) (m : Nat) (h : m + n ≤ d.length
     have := siftUp_perm d (get d m) m (by omega)
     rwa [set_get_self] at this
 
-theorem heapifyN_heap (n : Nat) (d : List Nat) (m : Nat) (h : m + n ≤ d.length) (hh : IsHeap d m) :
+theorem heapifyN_heap (n : Nat) (d : List Elem) (m : Nat) (h : m + n ≤ d.length) (hh : IsHeap d m) :
     IsHeap (heapifyN n d m) (m + n) := by
   induction n generalizing d m with
   | zero => exact hh
@@ -206,23 +206,23 @@ theorem heapifyN_heap (n : Nat) (d : List Nat) (m : Nat) (h : m + n ≤ d.length
 
 /-! ### `siftDown` / `reheap` -/
 
-theorem length_siftDown (d : List Nat) (mark x cur : Nat) : (siftDown d mark x cur).1.length = d.length := by
+theorem length_siftDown (d : List Elem) (mark : Nat) (x : Elem) (cur : Nat) : (siftDown d mark x cur).1.length = d.length := by
   fun_induction siftDown d mark x cur <;> simp_all
 
-theorem siftDown_cur_ge (d : List Nat) (mark x cur : Nat) : cur ≤ (siftDown d mark x cur).2 := by
+theorem siftDown_cur_ge (d : List Elem) (mark : Nat) (x : Elem) (cur : Nat) : cur ≤ (siftDown d mark x cur).2 := by
   fun_induction siftDown d mark x cur with
   | case1 => exact Nat.le_refl _
   | case2 d cur h hlt ih => have := pickChild_ge d mark (2 * cur + 1); omega
   | case3 => exact Nat.le_refl _
 
-theorem siftDown_cur_lt (d : List Nat) (mark x cur : Nat) (hc : cur < mark) : (siftDown d mark x cur).2 < mark := by
+theorem siftDown_cur_lt (d : List Elem) (mark : Nat) (x : Elem) (cur : Nat) (hc : cur < mark) : (siftDown d mark x cur).2 < mark := by
   fun_induction siftDown d mark x cur with
   | case1 => exact hc
   | case2 d cur h hlt ih => exact ih (pickChild_lt d mark _ h)
   | case3 => exact hc
 
 /-- `siftDown` writes only below the final hole position. -/
-theorem siftDown_get_ge (d : List Nat) (mark x cur : Nat) (j : Nat) (hj : (siftDown d mark x cur).2 ≤ j) :
+theorem siftDown_get_ge (d : List Elem) (mark : Nat) (x : Elem) (cur : Nat) (j : Nat) (hj : (siftDown d mark x cur).2 ≤ j) :
     get (siftDown d mark x cur).1 j = get d j := by
   fun_induction siftDown d mark x cur with
   | case1 => rfl
@@ -234,7 +234,7 @@ theorem siftDown_get_ge (d : List Nat) (mark x cur : Nat) (j : Nat) (hj : (siftD
     simp [this]
   | case3 => rfl
 
-theorem siftDown_perm (d : List Nat) (mark x cur : Nat) (hm : mark ≤ d.length) (hc : cur < d.length) :
+theorem siftDown_perm (d : List Elem) (mark : Nat) (x : Elem) (cur : Nat) (hm : mark ≤ d.length) (hc : cur < d.length) :
     ((siftDown d mark x cur).1.set (siftDown d mark x cur).2 x).Perm (d.set cur x) := by
   fun_induction siftDown d mark x cur with
   | case1 => exact List.Perm.refl _
@@ -246,8 +246,8 @@ theorem siftDown_perm (d : List Nat) (mark x cur : Nat) (hm : mark ≤ d.length)
   | case3 => exact List.Perm.refl _
 
 /-- children of `cur` inside the heap are `≤` the picked child -/
-theorem le_pickChild (d : List Nat) (mark cur i : Nat) (hi : (i - 1) / 2 = cur) (hi0 : 0 < i) (him : i < mark) :
-    get d i ≤ get d (pickChild d mark (2 * cur + 1)) := by
+theorem le_pickChild (d : List Elem) (mark cur i : Nat) (hi : (i - 1) / 2 = cur) (hi0 : 0 < i) (him : i < mark) :
+    (get d i).key ≤ (get d (pickChild d mark (2 * cur + 1))).key := by
   have : i = 2 * cur + 1 ∨ i = 2 * cur + 1 + 1 := by omega
   unfold pickChild
   split
@@ -255,16 +255,16 @@ theorem le_pickChild (d : List Nat) (mark cur i : Nat) (hi : (i - 1) / 2 = cur) 
   · rename_i hc2
     rcases this with rfl | rfl
     · omega
-    · have : ¬ get d (2 * cur + 1) < get d (2 * cur + 1 + 1) := fun e => hc2 ⟨him, e⟩
+    · have : ¬ (get d (2 * cur + 1)).key < (get d (2 * cur + 1 + 1)).key := fun e => hc2 ⟨him, e⟩
       omega
 
-theorem pickChild_parent (d : List Nat) (mark cur : Nat) : (pickChild d mark (2 * cur + 1) - 1) / 2 = cur := by
+theorem pickChild_parent (d : List Elem) (mark cur : Nat) : (pickChild d mark (2 * cur + 1) - 1) / 2 = cur := by
   unfold pickChild; split <;> omega
 
 /-- the sift-down loop with the hole at `cur`: `d` (with the stale value in the hole) is a heap on
 `[0, mark)` and `x` fits under the hole's parent; placing `x` at the final hole gives a heap. -/
-theorem siftDown_heap (mark x : Nat) (d : List Nat) (cur : Nat) (hm : mark ≤ d.length)
-    (hh : IsHeap d mark) (hx : cur = 0 ∨ x ≤ get d cur) :
+theorem siftDown_heap (mark : Nat) (x : Elem) (d : List Elem) (cur : Nat) (hm : mark ≤ d.length)
+    (hh : IsHeap d mark) (hx : cur = 0 ∨ x.key ≤ (get d cur).key) :
     IsHeap ((siftDown d mark x cur).1.set (siftDown d mark x cur).2 x) mark := by
   fun_induction siftDown d mark x cur with
   | case1 d cur h hlt =>
@@ -317,20 +317,20 @@ theorem siftDown_heap (mark x : Nat) (d : List Nat) (cur : Nat) (hm : mark ≤ d
       · split
         · omega
         · exact hh i hi0 him
-    · show get (d.set cur x) i ≤ get (d.set cur x) ((i - 1) / 2)
+    · show (get (d.set cur x) i).key ≤ (get (d.set cur x) ((i - 1) / 2)).key
       rw [List.set_eq_of_length_le (by omega)]
       exact hh i hi0 him
 
 /-! ### list helpers -/
 
-theorem ext_get {l1 l2 : List Nat} (hl : l1.length = l2.length) (h : ∀ i, i < l1.length → get l1 i = get l2 i) :
+theorem ext_get {l1 l2 : List Elem} (hl : l1.length = l2.length) (h : ∀ i, i < l1.length → get l1 i = get l2 i) :
     l1 = l2 := by
   apply List.ext_getElem hl
   intro i h1 h2
   have := h i h1
   rwa [get_of_lt l1 i h1, get_of_lt l2 i h2] at this
 
-theorem dropLast_append_back (l : List Nat) (h : 0 < l.length) : l.dropLast ++ [back l] = l := by
+theorem dropLast_append_back (l : List Elem) (h : 0 < l.length) : l.dropLast ++ [back l] = l := by
   apply ext_get (by simp; omega)
   intro i hi
   have hi' : i < l.length := by simpa [Nat.sub_add_cancel h] using hi
@@ -342,7 +342,7 @@ theorem dropLast_append_back (l : List Nat) (h : 0 < l.length) : l.dropLast ++ [
     rw [List.getElem?_append]
     simp
 
-theorem get_drop (d : List Nat) (m i : Nat) : get (d.drop m) i = get d (m + i) := by
+theorem get_drop (d : List Elem) (m i : Nat) : get (d.drop m) i = get d (m + i) := by
   unfold get; rw [List.getElem?_drop]
 
 /-! ### `heapify` and `reheap` as a whole -/
@@ -369,10 +369,10 @@ theorem heapify_spec (h : Heap) (hm : h.mark ≤ h.data.length) (hh : IsHeap h.d
     rw [e2]; exact this
 
 /-- the vector just before `data.pop_back()` in `reheap` -/
-def reheapPre (h : Heap) : List Nat :=
+def reheapPre (h : Heap) : List Elem :=
   (siftDown h.data h.mark (back h.data) 0).1.set (siftDown h.data h.mark (back h.data) 0).2 (back h.data)
 
-theorem siftDown_final_le (d : List Nat) (mark x : Nat) (hm : mark ≤ d.length) (hl : 0 < d.length) :
+theorem siftDown_final_le (d : List Elem) (mark : Nat) (x : Elem) (hm : mark ≤ d.length) (hl : 0 < d.length) :
     (siftDown d mark x 0).2 ≤ d.length - 1 := by
   by_cases h0 : 0 < mark
   · have := siftDown_cur_lt d mark x 0 h0; omega
@@ -458,5 +458,34 @@ theorem reheap_get_tail (h : Heap) (hm : h.mark ≤ h.data.length) (h1 : 1 ≤ h
   have hc := siftDown_cur_lt h.data h.mark (back h.data) 0 (by omega)
   unfold reheapPre
   rw [get_set_ne _ _ _ _ (by omega), siftDown_get_ge _ _ _ _ _ (by omega)]
+
+/-! ### the guards regenerated from the source mean what the proofs use
+
+Each lemma is proved by abstracting the atoms of the generated Boolean expression and deciding the
+propositional equivalence, so a re-translation that is syntactically different but equivalent (swapped
+conjuncts, `!(a >= b)` for `a < b` after normalisation by the translator, …) still checks, while a guard with
+different atoms (`<=` for `<`, swapped comparator arguments, `data[mark]` for `data[0]`) does not. -/
+
+theorem ltE_iff (a b : Elem) : ltE a b = true ↔ a.key < b.key := by simp [ltE]
+
+theorem shortcut_iff (h : Heap) :
+    shortcut h = true ↔ h.mark < h.data.length ∧ (get h.data 0).key < (back h.data).key := by
+  unfold shortcut Generated.C13.shortcutP1
+  rw [← ltE_iff]
+  generalize ltE (get h.data 0) (back h.data) = q
+  by_cases p : h.mark < h.data.length <;> cases q <;> simp [p]
+
+theorem shortcut2_eq (h : Heap) : shortcut2 h = shortcut h := by
+  unfold shortcut2 shortcut Generated.C13.shortcutP2 Generated.C13.shortcutP1
+  generalize ltE (get h.data 0) (back h.data) = q
+  by_cases p : h.mark < h.data.length <;> cases q <;> simp [p]
+
+theorem isEmpty2_iff (h : Heap) : isEmpty2 h = true ↔ h.data.length = 0 := by
+  unfold isEmpty2 Generated.C13.emptyP2
+  by_cases p : h.data.length = 0 <;> simp [p]
+
+theorem needHeapify_iff (h : Heap) : needHeapify h = true ↔ h.mark < h.data.length := by
+  unfold needHeapify Generated.C13.finishGuard
+  by_cases p : h.mark < h.data.length <;> simp [p]
 
 end TbbVerif.C13
